@@ -41,7 +41,10 @@ def run(ctx):
     # repeated with a larger buffer, not answered from what the previous lookup left behind)
     db = {"groups": [(700, ["ann", "bob"]), (701, ["cat"]), (700, ["dan"]), (702, []), (0, ["eve"]), (703, ["ghost", "ann2"]),
                      (704, ["fay", "longbob", "gus", "longest"]), (706, ["3999", "3002", "cat"]),   # all-digit names nobody bears
-                     (708, ["hx"]), (709, ["hy", "hz"])],   # members whose uids share a slot of the uid->groups table with uids that have no groups
+                     (708, ["hx"]), (709, ["hy", "hz"]),
+                     # a name unknown to passwd listed a SECOND time (its lookup is answered from the scan's cache), as the first
+                     # member of its group and right after a group with a resolvable member: nobody is a member of 713
+                     (712, ["bob"]), (713, ["ghost", "ghost"])],   # members whose uids share a slot of the uid->groups table with uids that have no groups
           "users": [("ann", 3001), ("bob", 3002), ("cat", 3003), ("dan", 3004), ("eve", 3005), ("ann2", 3001), ("root", 0),
                     ("fay", 3011), ("longbob", 3010, 3000), ("gus", 3012), ("longest", 3013, 70000),
                     ("hx", 3999 + 2053), ("hy", 3999 + 2 * 2053), ("hz", 3005 + 2053)]}
@@ -70,7 +73,7 @@ def run(ctx):
         for au in (ANY, cu, 3002 if cu != 3002 else 3001, 0):
             # ... incl. the gid that equals the client's UID number (the shim's passwd entries carry pw_gid = pw_uid: the gid field of
             # the client's OWN passwd line is not a membership) and groups whose members sit in the client's slot of the uid table
-            for ag in (ANY, cg, 700, 701, 704, 706, 0) + ((cu,) if cu not in (cg, 0) else ()) + ((708, 709) if cu in (3999, 3005) else ()):
+            for ag in (ANY, cg, 700, 701, 704, 706, 713, 0) + ((cu,) if cu not in (cg, 0) else ()) + ((708, 709) if cu in (3999, 3005) else ()):
                 for state in states:
                     n += 1
                     if not ctx.thorough and state != "fresh" and (n % 3):
